@@ -59,8 +59,11 @@ RULES = [
 ]
 
 
-def gen_cidr(rng):
-    plen = rng.choice([28, 28, 29, 29, 29, 29, 30, 30, 30, 30, 27, 24, 31, 32])
+def gen_cidr(rng, fam='managers'):
+    if fam == 'service':
+        plen = rng.choice([24, 27, 28, 28, 28, 29, 29, 29, 30, 30, 31])
+    else:
+        plen = rng.choice([28, 28, 29, 29, 29, 29, 30, 30, 30, 30, 27, 24, 31, 32])
     size = 1 << (32 - plen)
     base = (10 << 24) + rng.randrange(0, (1 << 24) // size) * size
     return [base, plen]
@@ -189,7 +192,7 @@ def gen_service(rng, case, nops):
 def gen_case(rng, i):
     fam = 'service' if i % 5 in (1, 3) else 'managers'
     no = rng.randrange(2, 9)
-    case = {'family': fam, 'cidr': gen_cidr(rng), 'n_owners': no, 'n_foreign': rng.randrange(0, 3)}
+    case = {'family': fam, 'cidr': gen_cidr(rng, fam), 'n_owners': no, 'n_foreign': rng.randrange(0, 3)}
     names = [owner_name(k) for k in range(1, no + case['n_foreign'] + 2)]
     names += ['proid.app%d#%010d' % (k, k) for k in range(1, 4)]
     case['names'] = names
